@@ -549,5 +549,5 @@ func TestC10(t *testing.T) {
 			}
 		}
 	}
-	run.RequireClass("lexer:spec-with-shared-rows", 50)
+	run.RequireClass("lexer:spec-with-shared-rows", 30)
 }
